@@ -31,9 +31,11 @@ def collect(sid, wt, prop):
     # run the existing suite without the demo crate
     rc_s2, out_s2 = sh("%s cargo test --offline --test lib --test test_dnssector --test test_synth 2>&1 | grep -E 'test result'" % env, cwd=wt)
     rc_with, out_with = sh("%s timeout 300 cargo test --offline --test seed_demo 2>&1 | tail -5" % env, cwd=wt)
-    sh("git stash push -- src", cwd=wt)
+    # (git stash is shared between the worktrees of one repository: two agents stashing at once swap their changes - use apply -R)
+    pf = os.path.join(d, "patch.diff")
+    rc_r, out_r = sh("git apply -R %s" % pf, cwd=wt)
     rc_without, out_without = sh("%s timeout 300 cargo test --offline --test seed_demo 2>&1 | tail -5" % env, cwd=wt)
-    sh("git stash pop", cwd=wt)
+    sh("git apply %s" % pf, cwd=wt)
     meta = {"id": sid, "property": prop, "compiles": rc_build == 0,
             "existing_suite_with_change": out_s2.strip().split("\n"),
             "demo_with_change_fails": ("test result: FAILED" in out_with or "panicked" in out_with), "demo_without_change_passes": ("test result: ok" in out_without and "FAILED" not in out_without),
